@@ -20,7 +20,7 @@ func init() {
 		Run: runC18, Workers: 16, GOMAXPROCS: 4,
 		QuickTimeout: 6 * time.Minute, ThoroughTimeout: 30 * time.Minute,
 		QuickFloor: 2000, ThoroughFloor: 40000,
-		RequiredCounters: []string{"jobs_run_once", "count_pairs_checked", "waitidle_returns_judged", "order_checked_limit1", "enqueue_during_worker_retire", "ConcWorkerLock"},
+		RequiredCounters: []string{"jobs_run_once", "count_pairs_checked", "waitidle_returns_judged", "order_checked_limit1", "enqueue_during_worker_retire", "watchstate_busy_reports", "ConcWorkerLock"},
 		Rule: "each case builds one ConcurrentQueue (limit 0=unlimited,1,2,3,8; 0-3 initial jobs) and runs 1-4 producers enqueueing batches of 0-5 jobs (nil entries included) whose durations are instant, yielding or gated by the harness, a WatchState observer and 1-3 WaitIdle callers (with error channels delivering nil, an error, or closing); " +
 			"jobs stamp start/end and count themselves; every (queued,running) pair returned or watched is checked; at the final quiescence every job ran exactly once; " +
 			"non-trivial = at least one Enqueue was in progress while a worker was at its retire point (schedule point before the worker takes the lock); distinct = distinct orders of recorded events",
@@ -198,6 +198,10 @@ func concCase(c *mon.Case) {
 		err := q.WatchState(obsCtx, nil, func(queued, running int) (bool, error) {
 			n++
 			checkPair("WatchState", queued, running)
+			if running > 0 {
+				// the invariant on watched pairs is vacuous if WatchState only ever reports an idle queue
+				c.Count("watchstate_busy_reports", 1)
+			}
 			return true, nil
 		})
 		if err != context.Canceled {
